@@ -163,3 +163,7 @@ func verifRunUntilBlocked(f func()) {
 
 // verifFireAfterFuncs fires pending time.AfterFunc callbacks (engine only).
 func verifFireAfterFuncs() int { return 0 }
+
+// verifSettle: let goroutines spawned by the call under test finish (native);
+// under the engine such goroutines run synchronously (stated per harness).
+func verifSettle() { time.Sleep(30 * time.Millisecond) }
